@@ -179,3 +179,13 @@ func DelaySets(keys []string, d int, yield func([]string) bool) {
 
 // Yield yields the processor (busy-wait helper for real-time stress).
 func Yield() { runtime.Gosched() }
+
+// HasDelays reports whether the controller parks goroutines (delay set or
+// perturbation), i.e. whether Quiesce can differ from Settle.
+func (c *Controller) HasDelays() bool { return len(c.delays) > 0 || (c.rng != nil && c.prob > 0) }
+
+// Quiesce blocks until every other goroutine of the bubble is durably blocked,
+// WITHOUT releasing goroutines parked at a hook: the harness's next action then
+// happens while they are still parked, i.e. they lose the race against it too.
+// With no delays configured it is the same as Settle.
+func (c *Controller) Quiesce() { synctest.Wait() }
